@@ -1,4 +1,5 @@
 import Bluge.Highlight
+import BlugeGen.C20
 /-! Model driver for C20 (line protocol, see go/harness/c20 for the op lines). -/
 open Bluge Bluge.Highlight
 
@@ -94,15 +95,9 @@ def distinctStarts : List TermLocation → Bool
   | [] => true
   | l :: rest => !(rest.any fun m => m.start == l.start) && distinctStarts rest
 
-/-- sorted and pairwise disjoint (what a tokenizer produces): each location ends before the next starts -/
-def disjointLocs : List TermLocation → Bool
-  | [] => true
-  | [_] => true
-  | a :: b :: rest => a.stop ≤ b.start && disjointLocs (b :: rest)
-
 def br (tags : List String) : String := if tags.isEmpty then "" else " br=" ++ ",".intercalate tags
 
-def c20step (_ : Unit) (op : String) (impl : String) : Unit × String :=
+def c20step (v : Variant) (op : String) (impl : String) : Variant × String :=
   let ws := op.splitOn " "
   let out : String × String := match ws with
     | ["dr", x] => match hexToBytes x with
@@ -132,7 +127,7 @@ def c20step (_ : Unit) (op : String) (impl : String) : Unit × String :=
         | none => ("bad-op", "na")
     | ["frag", fs, t, l] => match fs.toInt?, hexToBytes t, parseLocs l with
         | some fsize, some orig, some locs =>
-          let m := fragment orig fsize locs
+          let m := fragment v orig fsize locs
           let ok := locsOK orig locs
           let tags := [if ok then "frag-locs-ok" else "frag-locs-adversarial"] ++
             (if locs.isEmpty then ["frag-empty-locs"] else []) ++
@@ -156,8 +151,8 @@ def c20step (_ : Unit) (op : String) (impl : String) : Unit × String :=
         | some orig, some fa, some fb, some tls =>
           let html := k == "html"
           let f : Fragment := { start := fa, stop := fb }
-          let m := format (fmtOf k) orig f tls
-          let mk := marks f tls
+          let m := format v (fmtOf k) orig f tls
+          let mk := marks v f tls
           let tags := [if mk.isEmpty then "fmt-no-mark" else "fmt-marks", "fmt-" ++ k] ++
             (if tls.any Option.isNone then ["fmt-nil-entry"] else []) ++
             (if m.isNone then ["fmt-model-panic"] else [])
@@ -181,7 +176,7 @@ def c20step (_ : Unit) (op : String) (impl : String) : Unit × String :=
       match fs.toInt?, n.toInt?, hexToBytes t, parseLocs l with
         | some fsize, some num, some orig, some locs =>
           let html := k == "html"
-          let m := bestFragments (fmtOf k) orig fsize num locs
+          let m := bestFragments v (fmtOf k) orig fsize num locs
           let ord := orderTermLocations locs
           let ok := locsOK orig ord
           let fits := someFits orig fsize locs
@@ -211,6 +206,16 @@ def c20step (_ : Unit) (op : String) (impl : String) : Unit × String :=
         | _, _, _, _ => ("bad-op", "na")
     | "case" :: _ => ("case", "na")
     | _ => ("bad-op", "na")
-  ((), out.1 ++ sep ++ out.2)
+  (v, out.1 ++ sep ++ out.2)
 
-def main : IO Unit := driverLoop () c20step
+/-- The variant of the code the driver transcribes is the one go/extract recognised in /repo's source
+(`BlugeGen.C20.variant`, regenerated on every run). For development `VERIF_C20_FIXES` overrides it:
+`pinned`, or a comma-separated subset of `size-guard`, `loc-guard`, `rune-cut`. -/
+def main : IO Unit := do
+  let v : Variant := match (← IO.getEnv "VERIF_C20_FIXES") with
+    | none => BlugeGen.C20.variant
+    | some "" => BlugeGen.C20.variant
+    | some s =>
+      let fixes := s.splitOn ","
+      ⟨fixes.contains "size-guard", fixes.contains "loc-guard", fixes.contains "rune-cut"⟩
+  driverLoop v c20step
